@@ -57,6 +57,69 @@ theorem untilNul_append_nul (l t : List Nat) (h : ∀ c ∈ l, c ≠ 0) : untilN
     have ha : a ≠ 0 := h a (by simp)
     simp [untilNul, ha, ih (fun c hc => h c (by simp [hc]))]
 
+/-! ### two's-complement byte strings (the `signed=True` branch of `NumericValue`) -/
+
+theorem toBytes_length (n len : Nat) : (toBytes n len).length = len := by
+  rw [toBytes_eq, Frame.toBytesBE_length]
+
+theorem toBytes_head (m k : Nat) : (toBytes m (k + 1)).headD 0 = m / 256 ^ k % 256 := by
+  induction k generalizing m with
+  | zero => simp [toBytes]
+  | succ k ih =>
+    have hl := toBytes_length (m / 256) (k + 1)
+    have e : toBytes m (k + 2) = toBytes (m / 256) (k + 1) ++ [m % 256] := rfl
+    rw [e]
+    cases h : toBytes (m / 256) (k + 1) with
+    | nil => rw [h] at hl; simp at hl
+    | cons a rest =>
+      have := ih (m / 256)
+      rw [h] at this
+      simp only [List.cons_append, List.headD_cons] at this ⊢
+      rw [this, Nat.div_div_eq_div_mul, Nat.pow_succ, Nat.mul_comm]
+
+/-- `int.from_bytes(x.to_bytes(n, 'big', signed=True), 'big', signed=True) == x` for every `x` that fits -/
+theorem fromBytes_signed_toBytes (n : Nat) (hn : 1 ≤ n) (x : Int)
+    (hlo : -((256 : Int) ^ n / 2) ≤ x) (hhi : x < (256 : Int) ^ n / 2) :
+    fromBytes true (toBytes (x % (256 : Int) ^ n).toNat n) = x := by
+  obtain ⟨k, rfl⟩ : ∃ k, n = k + 1 := ⟨n - 1, by omega⟩
+  have hP : (256 : Int) ^ (k + 1) = ((256 ^ k : Nat) : Int) * 256 := by
+    rw [Int.pow_succ]; congr 1
+  generalize hp : (256 ^ k : Nat) = P at hP
+  have hPpos : 0 < P := by rw [← hp]; exact Nat.pow_pos (by decide)
+  have hNat : 256 ^ (k + 1) = P * 256 := by rw [Nat.pow_succ, hp]
+  unfold fromBytes
+  simp only [Bool.true_and, toBytes_length, toBytes_head, beNat_toBytes, hp]
+  rw [hP] at hlo hhi ⊢
+  rw [hNat]
+  by_cases hx : 0 ≤ x
+  · have hm : (x % ((P : Int) * 256)).toNat = x.toNat := by
+      rw [Int.emod_eq_of_lt hx (by omega)]
+    rw [hm]
+    have : x.toNat / P % 256 < 128 := by
+      have : x.toNat < P * 128 := by omega
+      have h3 : x.toNat / P < 128 := (Nat.div_lt_iff_lt_mul hPpos).mpr (by omega)
+      exact Nat.lt_of_le_of_lt (Nat.mod_le _ _) h3
+    simp only [decide_eq_true_eq]
+    rw [if_neg (by omega)]
+    have : x.toNat % (P * 256) = x.toNat := Nat.mod_eq_of_lt (by omega)
+    omega
+  · have hm : (x % ((P : Int) * 256)).toNat = (x + (P : Int) * 256).toNat := by
+      congr 1
+      rw [← Int.add_mul_emod_self_left x ((P : Int) * 256) 1]
+      simp only [Int.mul_one]
+      exact Int.emod_eq_of_lt (by omega) (by omega)
+    rw [hm]
+    generalize hy : (x + (P : Int) * 256).toNat = y
+    have hy' : (y : Int) = x + (P : Int) * 256 := by rw [← hy]; omega
+    have hyl : P * 128 ≤ y := by omega
+    have hyh : y < P * 256 := by omega
+    have h1 : 128 ≤ y / P := (Nat.le_div_iff_mul_le hPpos).mpr (by omega)
+    have h2 : y / P < 256 := (Nat.div_lt_iff_lt_mul hPpos).mpr (by omega)
+    simp only [decide_eq_true_eq]
+    rw [if_pos (by omega)]
+    have : y % (P * 256) = y := Nat.mod_eq_of_lt hyh
+    omega
+
 /-- a row of the transcribed table without its provenance mark -/
 def unpin (r : Row) : Row := { r with pinned := false }
 
